@@ -29,12 +29,13 @@
                                                               kernels in the BACKWARD bodies); dense SCE for
                                                               x and t of one common shape; its tangent is the
                                                               derivative only when sum_axis t = 1 (D11)
-   Not in real_family yet: MaxPooling2D, DivideScalarR/L, PowScalarR/L. *)
+     MaxPooling2D                                             Tensor/AdjMax.v (pool2d_red windows)
+     DivideScalarR/L, PowScalarR/L                            Tensor/AdjScalarR.v (BACKWARD bodies as kernel compositions) *)
 From Coq Require Import List NArith ZArith Bool Arith Lia Ring Reals RealField Lra.
 From PV Require Import Graph.OpFamily Graph.Tape Graph.Lazy Graph.Backward Graph.TapeLemmas Graph.LazyProofs
   Graph.BackwardProofs Graph.ADProof Tensor.Kernels Tensor.Index Tensor.ProofsBilinear
   Scalar.ScalarBase Gen.ScalarGen Scalar.Deriv Scalar.Pown
-  Tensor.AdjCore Tensor.AdjMatmul Tensor.GraphInst Tensor.AdjMax Tensor.AdjSoftmax.
+  Tensor.AdjCore Tensor.AdjMatmul Tensor.GraphInst Tensor.AdjMax Tensor.AdjSoftmax Tensor.AdjScalarR.
 Import ListNotations.
 Local Open Scope R_scope.
 
@@ -84,7 +85,11 @@ Inductive rop :=
 | RLogSumExp (sx sy : tshape) (dim : nat)
 | RSCE (sx sy : tshape) (dim : nat)
 | RSparseSCE (sx sp : tshape) (ids : list nat) (dim : nat)
-| RMaxPool (sx sy : tshape) (w0 w1 p0 p1 s0 s1 : nat).
+| RMaxPool (sx sy : tshape) (w0 w1 p0 p1 s0 s1 : nat)
+| RDivScalarR (sx sk : tshape)
+| RDivScalarL (sx sk : tshape)
+| RPowScalarR (sx sk : tshape)
+| RPowScalarL (sx sk : tshape).
 
 Notation opdescR := (@opdesc R).
 Definition describeR (o : rop) : opdescR :=
@@ -103,6 +108,10 @@ Definition describeR (o : rop) : opdescR :=
   | RSCE sx sy dim => sce_desc sx sy dim
   | RSparseSCE sx sp ids dim => ssce_desc sx sp ids dim
   | RMaxPool sx sy w0 w1 p0 p1 s0 s1 => pool_desc sx sy w0 w1 p0 p1 s0 s1
+  | RDivScalarR sx sk => divscr_desc sx sk
+  | RDivScalarL sx sk => divscl_desc sx sk
+  | RPowScalarR sx sk => powscr_desc sx sk
+  | RPowScalarL sx sk => powscl_desc sx sk
   end.
 
 Definition real_family : OpFamily rop tshape (@OpFamily.vec R) :=
@@ -113,7 +122,7 @@ Definition real_jvp : JvpFamily (R := R) rop := desc_jvp describeR.
 
 Theorem describeR_LA (o : rop) : desc_LA 0 Rplus Rmult (describeR o).
 Proof.
-  destruct o as [c|u s|c s k|s|s|s k|b sa sb|sx sy dim|sx sy dim|sx sy dim|sx sy dim|sx sp ids dim|sx sy w0 w1 p0 p1 s0 s1]; cbn [describeR].
+  destruct o as [c|u s|c s k|s|s|s k|b sa sb|sx sy dim|sx sy dim|sx sy dim|sx sy dim|sx sp ids dim|sx sy w0 w1 p0 p1 s0 s1|sx sk|sx sk|sx sk|sx sk]; cbn [describeR].
   - apply (describe_LA 0 1 Rplus Rmult Rminus Ropp RthR).
   - apply (uny_LA 0 1 Rplus Rmult Rminus Ropp RthR). intros x y g.
     destruct (bw_linear_unary x y g) as (H1 & H2 & H3 & H4 & H5 & H6 & H7 & H8 & H9 & H10). destruct u; assumption.
@@ -131,6 +140,10 @@ Proof.
   - apply sce_LA.
   - apply ssce_LA.
   - apply pool_LA.
+  - apply divscr_LA.
+  - apply divscl_LA.
+  - apply powscr_LA.
+  - apply powscl_LA.
 Qed.
 
 Theorem real_LocalAdjoint (o : rop) : LocalAdjoint 0 Rplus Rmult real_family real_jvp tsize o.
